@@ -36,6 +36,16 @@ class DeFactoCookiePolicy(DefaultCookiePolicy):
         if not DefaultCookiePolicy.set_ok(self, cookie, request):
             return False
 
+        if cookie.domain_specified:
+            # An IP address or a single-label name has no domain its cookies
+            # could be shared with (RFC 6265): the standard library matches
+            # such hosts by the text of the address and by '.local'.
+            host = http.cookiejar.request_host(request)
+
+            if (not http.cookiejar.is_HDN(host) or '.' not in host) and \
+                    cookie.domain.lstrip('.') != host:
+                return False
+
         try:
             new_cookie_length = (self.cookie_length(cookie.domain) +
                                  len(cookie.path) + len(cookie.name) +
